@@ -1,4 +1,5 @@
 SPECIFICATION Spec
+CONSTANT Ignore = {}
 CONSTANT Strict = FALSE
 CONSTRAINT Reg
 POSTCONDITION Accepted
